@@ -18,6 +18,8 @@ ID = "C07"
 TRUSTED = ["CPython repr(float)/float(str) round trip and the character set of repr (checked on every probability on disk)",
            "codecs encode/decode of the ruleset encoding; configparser and json for config.ini",
            "str.splitlines / str.rstrip / int(): probed over all code points on every run, compared with the model on every file"]
+TRUSTED.append("translator tie of check_valid: the reading harness/translate_reader.py gives its accepted Python subset and the "
+               "runtime coq/theories/ReaderRt.v (`a in b` on strings = substring test, chr, constant ranges, any / all as existsb / forallb)")
 ASSUMES = ["alpha values are the lower-cased segment: str.lower() never yields a TAB or a line break from other characters (swept on every run)",
            "C07_roundtrip_*: values contain no TAB and no code point the line iteration splits on (safe_value); this follows from "
            "check_valid when C07_linebreaks_rejected holds, because segments are substrings of accepted passwords",
